@@ -43,6 +43,8 @@ def gen_cases(tier, seed):
     if True:
         for i in range(32 if tier == 'thorough' else 8):
             yield {'k': 'big', 's': seed * 1000003 + i}
+        for i in range(12 if tier == 'thorough' else 3):
+            yield {'k': 'huge', 's': seed * 1000003 + i}
 
 
 def build(case):
@@ -52,6 +54,20 @@ def build(case):
         segs = M.gen_file(rng, types=[case['t'], case['t'], other], inter=bool(case['inter']), max_segs=3, max_chans=3,
                           chunks=(2, 3, 4) if case['multi'] else (1,), lens=(0, 1, 2, 3) if not case['inter'] else (1, 2, 3),
                           p_zero_chunks=0.0, p_nodata=0.05)
+    elif case['k'] == 'huge':
+        # raw data sizes at and beyond the block sizes a chunked reader might use (1 MiB, 16 MiB)
+        t = rng.choice(['f64', 'i32', 'u8', 'i16', 'c64'])
+        size = M.TYPES[t][2]
+        n = rng.choice([2 ** 20 // size, 2 ** 20 // size + 1, 2 ** 24 // size + rng.choice([1, 777])])
+        inter = rng.random() < 0.4
+        other = 'u8' if not inter else t
+        chans = [('g', 'big', t, n, []), ('g', 'side', other, n if inter else 3, [])]
+
+        def vf(p, tt, k):
+            dt = M.TYPES[tt][1]
+            return (np.arange(k, dtype='i8') % 253).astype(dt)
+        segs = M.build_file(rng, chans, nseg=rng.choice([1, 2]), nchunks=(1,), inter=inter, endian=rng.choice('<>'), values_fn=vf,
+                            continuation='same')
     elif case['k'] == 'big':
         segs = M.gen_file(rng, max_segs=8, max_chans=6, lens=(0, 1, 17, 100, 300), chunks=(1, 2, 5))
     else:
